@@ -155,7 +155,7 @@ def cases(tier, seed):
         for lb in (0, 1):
             if lb <= ub:
                 yield {"part": "binprod", "lb": lb, "ub": ub}
-    # piecewise: every list of 1-3 disjoint integer ranges inside [0,6] (bounded count), distinct constants
+    # piecewise: every list of 1-3 disjoint integer ranges inside [0,6], passed in every order, distinct constants
     rngs = [(a, b) for a in range(0, 7) for b in range(a, 7)]
     consts_pool = [1, 2, 0.5]
     lists = []
@@ -322,10 +322,11 @@ def run(case):
                     nt += 1
     elif part == "piecewise":
         pool = case["consts"]
-        for rl in case["lists"]:
-            consts = pool[:len(rl)]
-            for rot in range(len(rl)):
-                cs = consts[rot:] + consts[:rot]
+        for rl0 in case["lists"]:
+            cs = pool[:len(rl0)]
+            # the ranges are passed in EVERY order (the helper only asks for disjoint ranges), which also assigns the constants in every way
+            for perm in itertools.permutations(range(len(rl0))):
+                rl = [rl0[i] for i in perm]
                 xs = [x for (a, b) in rl for x in range(a, b + 1)]
                 for x in xs:
                     exp = [c for (a, b), c in zip(rl, cs) if a <= x <= b][0]
